@@ -148,7 +148,15 @@ func (p *pipe) receiver() {
 					// NB: If we ever do work to break
 					// up the locking, we will need to
 					// revisit this.
-					c.recvQ <- m
+					// (An unbuffered queue has no room to
+					// make: without a receiver waiting the
+					// message is dropped rather than
+					// blocking with the lock held.)
+					select {
+					case c.recvQ <- m:
+					default:
+						m.Free()
+					}
 				}
 			}
 		}
@@ -264,7 +272,7 @@ func (c *context) SetOption(name string, value interface{}) error {
 
 	switch name {
 	case protocol.OptionReadQLen:
-		if v, ok := value.(int); ok {
+		if v, ok := value.(int); ok && v >= 0 {
 			recvQ := make(chan *protocol.Message, v)
 			sizeQ := make(chan struct{})
 			c.s.Lock()
